@@ -110,7 +110,7 @@ def do_replay(path):
         hits = [v for v in res.get("violations", []) if v["name"] == data["name"]]
         print(json.dumps({"violated": [data["name"]] if hits else [], "detail": hits[:1]}, indent=1, default=str))
         return 1 if hits else 0
-    modname, hname = data["harness"].split(":")
+    modname, hname = data["harness"].split(":", 1)
     mod = importlib.import_module(modname)
     h = [x for x in mod.HARNESSES if x.name == hname][0]
     if data.get("witness") is None:
